@@ -40,3 +40,7 @@ package sys
 //@   ensures[C17.get_caches_loaded]   old(cl.Location) == nil && result1 == nil ==> cl.Location == result0
 //@ func (*CachedLocations).Open
 //@   ensures[C17.open_existence_checked] check && result1 == nil ==> checked == name
+
+// ---- C15: hooks are installed before the location's state is loaded -------------------------------
+//@ func (*System).newLocation
+//@   assert[C15.hooks_before_load] at "NewLocation(ctx, name, state,": hooksInstalled
